@@ -16,10 +16,10 @@ from pykdebugparser.trace_codes import from_trace_codes_text
 from pykdebugparser.pykdebugparser import PyKdebugParser
 
 IDFORMS = ['0x40c0548', '40c0548', '0X40C0548', '0x0', 'ffffffff', '0x00000001', '21000010', '10']      # the last two: no prefix, decimal digits only (still hex)
-NAMES = ['A', 'BSC_read', 'a.b-c', 'IO#x', '#n;//', 'IO\ufeffx', '\u200bA']      # the last two: invisible characters that are NOT white space are part of a name
+NAMES = ['A', 'BSC_read', 'a.b-c', 'IO#x', '#n;//', 'IO\ufeffx', '\u200bA', 'ven\x00dor']      # the last two: invisible characters that are NOT white space are part of a name
 SEPS = [' ', '\t', ' \t  ']
 TRAILS = ['', ' #comment', '\textra col fd 64 0x2100000c c',      # a tail whose words look like ids, the last one at the very end of the line
-          ' # page 1\x0cfd0 NOT_A_LINE \u2028 fd1 NEITHER']        # a tail holding characters some splitters take for line ends (FF, U+2028)
+          ' # page 1\x0cfd0 NOT_A_LINE \u2028 fd1 NEITHER', ' # zero\x00padded \x00']        # a tail holding characters some splitters take for line ends (FF, U+2028)
 
 
 def line(i, n, s, t):
